@@ -105,6 +105,34 @@ mod imp {
         if !same::<std::collections::BTreeMap<String, Value>>(&raw, span) { out.push_str(" DIFF-deserializer-Map"); }
         if !same::<Box<RawValue2>>(&raw, span) { out.push_str(" DIFF-deserializer-Raw"); }
         if <Box<RawValue>>::default().get() != "null" { out.push_str(" DIFF-default"); }
+        // a user Formatter sees a RawValue exactly once, whole, through write_raw_fragment and never through write_string_fragment (one Serializer, three documents)
+        {
+            #[derive(Default)]
+            struct Rec { raws: Vec<String>, strs: Vec<String> }
+            struct F<'a>(&'a std::cell::RefCell<Rec>);
+            impl<'a> serde_json::ser::Formatter for F<'a> {
+                fn write_raw_fragment<W: ?Sized + std::io::Write>(&mut self, w: &mut W, fragment: &str) -> std::io::Result<()> {
+                    self.0.borrow_mut().raws.push(fragment.to_owned());
+                    w.write_all(fragment.as_bytes())
+                }
+                fn write_string_fragment<W: ?Sized + std::io::Write>(&mut self, w: &mut W, fragment: &str) -> std::io::Result<()> {
+                    self.0.borrow_mut().strs.push(fragment.to_owned());
+                    w.write_all(fragment.as_bytes())
+                }
+            }
+            let rec = std::cell::RefCell::new(Rec::default());
+            let mut buf = Vec::new();
+            {
+                use serde::Serialize;
+                let mut ser = serde_json::Serializer::with_formatter(&mut buf, F(&rec));
+                let ok = raw.serialize(&mut ser).is_ok() && ("k", &raw).serialize(&mut ser).is_ok() && vec![&raw].serialize(&mut ser).is_ok();
+                if !ok { out.push_str(" DIFF-formatter-serialize-failed"); }
+            }
+            let r = rec.into_inner();
+            if r.raws != vec![span.to_owned(); 3] || r.strs != vec!["k".to_owned()] || buf != format!("{}[\"k\",{}][{}]", span, span, span).into_bytes() {
+                out.push_str(" DIFF-formatter-hooks");
+            }
+        }
         out
     }
     // Box<RawValue> compared by text
